@@ -45,6 +45,7 @@ def str_codec(bt, enc, hl=True):
 
 
 _ALPHA = {}
+_ASTRAL = ["\U0001F600", "\U00010000", "\U0001D11E", "\U0010FFFF"]
 
 
 def alphabet(codec):
@@ -77,7 +78,13 @@ def gen_string(rng, codec, nbytes, forbid=(), ascii_only=False, bmp_only=False):
     guard = 0
     while n < nbytes:
         guard += 1
-        ch = rng.choice(alpha) if (rng.random() < 0.35 and not ascii_only) else chr(rng.randint(0x21, 0x7e))
+        r = rng.random()
+        if r < 0.08 and not ascii_only and not bmp_only and codec in ("utf-8", "utf-16-be", "utf-16-le"):
+            # (round 8) characters outside the basic multilingual plane: ONE python character, two UTF-16 code units / four UTF-8 bytes --
+            # whatever counts characters instead of code units is wrong exactly here
+            ch = rng.choice(_ASTRAL)
+        else:
+            ch = rng.choice(alpha) if (r < 0.35 and not ascii_only) else chr(rng.randint(0x21, 0x7e))
         if bmp_only and ord(ch) > 0xffff:
             continue
         b = ch.encode(codec)
